@@ -239,6 +239,23 @@ Section DelayProofs.
               repeat match goal with X : rets _ = _ |- _ => rewrite X | X : inbody _ = _ |- _ => rewrite X end;
               simpl; reflexivity).
     all: try (repeat split; eauto; fail).
-    all: idtac.
-  Abort.
+    all: try (rewrite map_app; simpl; rewrite brun_snoc, (di_log s I); unfold bst;
+              repeat match goal with X : rets _ = _ |- _ => rewrite X | X : inbody _ = _ |- _ => rewrite X end;
+              simpl; reflexivity).
+    all: try (intros v1 [Heq|Hin];
+              [ inversion Heq; subst; apply (di_st s I t); assumption | exact (di_done s I t _ _ Hin) ]).
+    all: try (intros v1 Hin; pose proof (di_done s I t _ _ Hin); congruence).
+    all: try match goal with X : d_st (dthr _ ?u) = Some ?x |- _ => pose proof (di_st _ I u x X); congruence end.
+    all: try (split; congruence).
+    all: try match goal with |- _ /\ (exists v0, Some ?v = Some v0 /\ _) =>
+               split; [congruence|]; exists v; repeat split; auto;
+               first [ apply (di_cell s I); congruence | left; congruence ] end.
+    all: try (split; [match goal with X : d_new _ = Some _ |- _ => rewrite X end; discriminate|assumption]).
+    all: try (match goal with X : val_res _ = DVal _, Y : d_new _ = dcell _, Z : dcell _ = Some _ |- _ =>
+                rewrite Y, Z in X; simpl in X; inversion X; subst; apply (di_cell s I); assumption end).
+  Qed.
+
+  Theorem dreach_DInv progs s : dreach (dinit progs) s -> DInv s.
+  Proof. intro R. induction R; eauto using DInv_init, DInv_step. Qed.
+
 End DelayProofs.
